@@ -6,8 +6,6 @@ import (
 	"fmt"
 	"math/rand/v2"
 	"os"
-	"runtime/debug"
-	"runtime/pprof"
 	"sort"
 	"strings"
 	"sync"
@@ -156,9 +154,10 @@ func genCases(c *mon.Ctx) []*upCase {
 	var large []big
 	if c.Quick() {
 		large = []big{
+			// (the 2 GiB cases 3999x512K-1/0/+1 run in the thorough tier: under -race one of them
+			// alone is 1-2 minutes of a single reader goroutine on a loaded machine)
 			{"3999x128K", 3999 * 128 * kib, []int64{0, 1}},
 			{"3999x256K", 3999 * 256 * kib, []int64{1}},
-			{"3999x512K", 3999 * 512 * kib, []int64{-1, 0}},
 		}
 	} else {
 		large = []big{
@@ -658,15 +657,6 @@ func runC32(c *mon.Ctx) {
 	c.Assume("declared totals equal the real source length (a lying size is outside the statement); resumed Upload objects are not exercised")
 	c.Assume("FLOOD_WAIT uses the real clock (the uploader offers no clock injection): flood cases are few and only their outcome is judged, never their duration")
 
-	// Under -race sync.Pool drops a quarter of the buffers, so the uploader allocates
-	// hundreds of MiB of part buffers; with the default 4 MiB heap floor that means
-	// thousands of GC cycles (each a stop-the-world on a loaded machine). The live heap
-	// is a few dozen MiB at most: collect by a memory limit instead of by growth ratio.
-	if os.Getenv("UPMON_GC") == "limit" {
-		debug.SetGCPercent(-1)
-		debug.SetMemoryLimit(1 << 30)
-	}
-
 	t := newSimTable(c.Rand("c32-table"))
 	cases := genCases(c)
 	order := make([]*upCase, len(cases))
@@ -716,11 +706,6 @@ func runC32(c *mon.Ctx) {
 				st.add("uploads_"+outcome, 1)
 			}
 		}()
-	}
-	if pf := os.Getenv("UPMON_PROF"); pf != "" { // development aid
-		f, _ := os.Create(pf)
-		pprof.StartCPUProfile(f)
-		defer pprof.StopCPUProfile()
 	}
 	only := os.Getenv("UPMON_CASES") // development aid: run a subset (the run is then inconclusive)
 	for _, u := range order {
